@@ -65,20 +65,18 @@ func (th *dummyMigrationHandler) ConsensusUpgrade(privateCtx any) error {
 			return fmt.Errorf("failed to set entity: %w", err)
 		}
 
-		// Set this entity's staking properly.
+		// Set this entity's staking properly. The account may already exist (anybody can transfer
+		// or escrow to its address), so only the stake claim is added to whatever is there.
 		testEntityAddr := staking.NewAddress(TestEntity.ID)
-		err = stakeState.SetAccount(abciCtx, testEntityAddr, &staking.Account{
-			Escrow: staking.EscrowAccount{
-				StakeAccumulator: staking.StakeAccumulator{
-					Claims: map[staking.StakeClaim][]staking.StakeThreshold{
-						registry.StakeClaimRegisterEntity: staking.GlobalStakeThresholds(
-							staking.KindEntity,
-						),
-					},
-				},
-			},
-		})
+		acct, err := stakeState.Account(abciCtx, testEntityAddr)
 		if err != nil {
+			return fmt.Errorf("failed to fetch account: %w", err)
+		}
+		acct.Escrow.StakeAccumulator.AddClaimUnchecked(
+			registry.StakeClaimRegisterEntity,
+			staking.GlobalStakeThresholds(staking.KindEntity),
+		)
+		if err = stakeState.SetAccount(abciCtx, testEntityAddr, acct); err != nil {
 			return fmt.Errorf("failed to set account: %w", err)
 		}
 	case abciAPI.ContextEndBlock:
